@@ -95,6 +95,8 @@ def enc_ten(a):
     return list(a.shape) + [int(v) for v in r.ravel()]
 
 def enc_out(outs):
+    if isinstance(outs, list) and all(isinstance(v, (int, np.integer)) for v in outs):
+        return [int(v) for v in outs]          # raw integer result
     if isinstance(outs, tuple) and len(outs) == 2 and isinstance(outs[0], str):
         return [-1, outs[1]]
     r = []
